@@ -17,6 +17,99 @@ def tokC : COp → String
   | .mcr c t r => s!"MCR:{regName c}:{regName t}:c{r}"
   | _ => "?"
 
+/-! ### branch tags of a run (driver-side instrumentation; the model functions themselves are called unchanged)
+
+  For the evidence and for the model-guided choice of targets in `harness/c02.py`: which SHAPE and SIGN the generators have on which the
+  two sign-sensitive steps of the solver act — the emitter-only generator of a time-reversed measurement (`trm:`) and the generator of a
+  photon absorption (`abs:`).  Shape: `Z1` one emitter, Pauli Z already; `P1` one emitter, X or Y; `Zk` / `Pk` several emitters
+  (all Z / some X or Y); for absorptions the photon's Pauli (`x`, `y`, `z`) comes first.  Sign: `-` iff the sign repair (an X on the
+  emitter) fires, i.e. the sign bit of the generator is set when `tableau.phase[generator] == 1` is tested. -/
+
+def emitterShape (s : St) (g : Nat) : String :=
+  let sup := (List.range s.ne).filter fun e => (s.t.row g).x (s.np + e) || (s.t.row g).z (s.np + e)
+  let xfree := (List.range s.ne).all fun e => !(s.t.row g).x (s.np + e)
+  (if xfree then "Z" else "P") ++ (if sup.length ≤ 1 then "1" else "k")
+
+/-- tag of `_time_reversed_measurement` on `s` (the tableau is already in echelon gauge) -/
+def trmTag (s : St) : Option String :=
+  let cands := (List.range s.t.n).filter fun i => (List.range s.np).all fun j => !(s.t.row i).x j && !(s.t.row i).z j
+  match cands with
+  | [] => none
+  | g :: _ =>
+    match emitterIndices s g with
+    | [] => none
+    | e :: _ =>
+      match allEmittersToZ s g true with
+      | .error _ => none
+      | .ok s1 =>
+        match transformGeneratorEmitters s1 g e with
+        | .error _ => none
+        | .ok s2 => some s!"trm:{emitterShape s g}:{if (s2.t.row g).r then "-" else "+"}"
+
+/-- tag of `_add_photon_absorption(photon)` on `s` -/
+def absTag (s : St) (photon : Nat) : Option String :=
+  match ((List.range s.t.n).reverse.filter fun i => s.t.leftmost i == some photon).head? with
+  | none => none
+  | some g =>
+    let pt := match s.t.ptype g photon with | 1 => "x" | 2 => "y" | _ => "z"
+    let (s0, gl) := changeToZ s g photon
+    match addOneQubit s0 gl photon with
+    | .error _ => none
+    | .ok s1 =>
+      match emitterIndices s1 g with
+      | [] => none
+      | e :: _ =>
+        match allEmittersToZ s1 g false with
+        | .error _ => none
+        | .ok s2 =>
+          match transformGeneratorEmitters s2 g e with
+          | .error _ => none
+          | .ok s3 => some s!"abs:{pt}{emitterShape s g}:{if (s3.t.row g).r then "-" else "+"}"
+
+/-- replay of the photon loop with the model's own functions, collecting the tags -/
+def tagsLoop : St → List Nat → List String → List String
+  | _, [], acc => acc
+  | s, j :: rest, acc =>
+    match s.t.rref with
+    | .error _ => acc
+    | .ok (t1, _) =>
+      match t1.heightFuncList with
+      | .error _ => acc
+      | .ok hl =>
+        let hl0 : List Int := 0 :: hl
+        let s1 : St := { s with t := t1 }
+        let cond := hl0.getD j 0 < hl0.getD (j - 1) 0
+        let acc1 := if cond then acc ++ (trmTag s1).toList else acc
+        let s3? : Option St :=
+          if cond then
+            match timeReversedMeasurement s1 (j - 1) with
+            | .error _ => none
+            | .ok s2 =>
+              match s2.t.rref with
+              | .error _ => none
+              | .ok (t2, _) => some { s2 with t := t2 }
+          else some s1
+        match s3? with
+        | none => acc1
+        | some s3 =>
+          let acc2 := acc1 ++ (absTag s3 (j - 1)).toList
+          match addPhotonAbsorption s3 (j - 1) with
+          | .error _ => acc2
+          | .ok s4 => tagsLoop s4 rest acc2
+
+def runTags (target : STab) : List String :=
+  match determineNEmitters target with
+  | .error _ => []
+  | .ok ne =>
+    let np := target.n
+    let t0 := (List.range ne).foldl (fun (acc : STab) _ => (acc.insertQubit acc.n).norm) target
+    tagsLoop { np := np, ne := ne, t := t0, circ := [] } ((List.range np).reverse.map (· + 1)) []
+
+/-- solver.tags n= x= z= r=: the branch tags only (cheap pre-selection of targets) -/
+def tags (a : Args) : String :=
+  let ts := runTags (CmdStab.stabOf a)
+  s!"ok tags={if ts.isEmpty then "-" else String.intercalate "|" ts}"
+
 /-- solver.trs n= x= z= r=  (target stabilizer tableau); `zero` = the final working tableau generates the group of |0…0⟩, the hypothesis `hfinal` of
     `C02.solve_sound`, evaluated on every input -/
 def trs (a : Args) : String :=
@@ -24,11 +117,36 @@ def trs (a : Args) : String :=
   | .error e => s!"err {e}"
   | .ok s =>
     let toks := s.cops.map tokC
-    s!"ok ne={s.ne} np={s.np} zero={b01 (s.t.sameGroup (STab.zero (s.np + s.ne)))} ops={if toks.isEmpty then "-" else String.intercalate "," toks}"
+    let ts := runTags (CmdStab.stabOf a)
+    s!"ok ne={s.ne} np={s.np} zero={b01 (s.t.sameGroup (STab.zero (s.np + s.ne)))} tags={if ts.isEmpty then "-" else String.intercalate "|" ts} ops={if toks.isEmpty then "-" else String.intercalate "," toks}"
+
+/-! ### the two tableau-rewriting helpers of the solver on an arbitrary working tableau (helper-level correspondence)
+
+  `solver.trm` / `solver.absorb np= ne= photon= n= x= z= r=`: run the model's `_time_reversed_measurement` / `_add_photon_absorption` on the
+  working tableau (n = np + ne qubits, empty circuit) and print the new tableau and the operations recorded (time order). -/
+
+def stOf (a : Args) : St := { np := getNat a "np", ne := getNat a "ne", t := CmdStab.stabOf a, circ := [] }
+
+def showSt (s : St) : String :=
+  let toks := s.cops.map tokC
+  s!"{CmdStab.showStab s.t} ops={if toks.isEmpty then "-" else String.intercalate "," toks}"
+
+def helperTrm (a : Args) : String :=
+  match timeReversedMeasurement (stOf a) (getNat a "photon") with
+  | .error e => s!"err {e}"
+  | .ok s => s!"ok {showSt s}"
+
+def helperAbsorb (a : Args) : String :=
+  match addPhotonAbsorption (stOf a) (getNat a "photon") with
+  | .error e => s!"err {e}"
+  | .ok s => s!"ok {showSt s}"
 
 def dispatch (cmd : String) (a : Args) : Option String :=
   match cmd with
   | "solver.trs" => some (trs a)
+  | "solver.tags" => some (tags a)
+  | "solver.trm" => some (helperTrm a)
+  | "solver.absorb" => some (helperAbsorb a)
   | _ => none
 
 end Graphiq.CmdSolver
